@@ -10,6 +10,7 @@ Answer:            <model value>|<spec value>
   values: `S:<code points>`  `B:0|1`  `I:<int>`  `L:<ints>` (`L:` = empty sequence)  `ERR:<code>`
 ops: substring2 substring3 before after contains starts ends translate translate1 normalize concat join
      length compare cpequal s2cp cp2s upper lower encode iri html
+     hbefore hafter hcontains hstarts hends hcompare (HTML ASCII case-insensitive collation)
 -/
 import EPV.Proto
 import EPV.Model.Strings
@@ -139,6 +140,13 @@ def answer (line : String) : String :=
       | "compare" => pair (vOI (Strings.noneIfEitherNone Strings.compare s t)) (vOI (FOStrings.lift2 FOStrings.compare s t))
       | "cpequal" => pair (vOB (Strings.noneIfEitherNone Strings.codepointEqual s t))
           (vOB (FOStrings.lift2 FOStrings.codepointEqual s t))
+      | "hbefore" => pair (vS (Strings.substringBeforeC .htmlAscii (md s) (md t))) (vS (FOStrings.substringBeforeC .htmlAscii (sd s) (sd t)))
+      | "hafter" => pair (vS (Strings.substringAfterC .htmlAscii (md s) (md t))) (vS (FOStrings.substringAfterC .htmlAscii (sd s) (sd t)))
+      | "hcontains" => pair (vB (Strings.containsC .htmlAscii (md s) (md t))) (vB (FOStrings.containsC .htmlAscii (sd s) (sd t)))
+      | "hstarts" => pair (vB (Strings.startsWithC .htmlAscii (md s) (md t))) (vB (FOStrings.startsWithC .htmlAscii (sd s) (sd t)))
+      | "hends" => pair (vB (Strings.endsWithC .htmlAscii (md s) (md t))) (vB (FOStrings.endsWithC .htmlAscii (sd s) (sd t)))
+      | "hcompare" => pair (vOI (Strings.noneIfEitherNone (Strings.compareC .htmlAscii) s t))
+          (vOI (FOStrings.lift2 (FOStrings.compareC .htmlAscii) s t))
       | _ => "bad-op"
     | _, _ => "bad-arg"
   | [op, s] =>
